@@ -194,7 +194,7 @@ def _solver(h, cls, sp, gen0, strict):
     return s, D, NP, pop, popE, best, bestE, trial, stepmon
 
 
-def _de1(h, gen0):
+def _de1(h, gen0, reentered=False):
     sp = _spec_functions(h)
     for k, v in sp.items():
         h.spec(k, v, pure=k in ('E', 'FIX', 'EVALD'))
@@ -203,9 +203,13 @@ def _de1(h, gen0):
     h.set_summaries(_summaries(sp, cb))
     s, D, NP, pop, popE, best, bestE, trial, stepmon = _solver(h, 'DifferentialEvolutionSolver', sp, gen0, strict)
     env = dict(self=s)
-    if gen0:
+    if gen0 and not reentered:
         # state left by SetInitialPoints / SetRandomInitialPoints: every energy is the initial inf
         h.assume('forall(0, self.nPop, lambda c: isinf(self.popEnergy[c]))', **env)
+    elif reentered:
+        # an evolved solver whose step monitor was replaced (SetGenerationMonitor(m, new=True)) runs the generation-0
+        # branch again: the members are valid, the stored best is whatever it was
+        h.assume(INV_MEMBERS, **env)
     else:
         h.assume(INV_MEMBERS, **env)
         h.assume(INV_BEST, **env)
@@ -219,6 +223,9 @@ def _de1(h, gen0):
     # ---- C01: after the iteration every stored energy is the objective at its member; the best likewise
     h.check('C01/member-energies-are-the-objective-at-the-members', INV_MEMBERS, **env)
     h.check('C01/best-energy-is-the-objective-at-an-evaluated-constrained-point', INV_BEST, **env)
+    if reentered:
+        h.cover('reached-end')
+        return
     h.check('C01/best-not-worse-than-any-member', INV_ORDER, **env)
     # ---- C04: best never worsens, one evaluation per member, one monitor record (a copy), one callback
     if not gen0:
@@ -250,6 +257,24 @@ def de1_step(h):
           note='precondition: all member energies are the initial inf (SetInitialPoints family)')
 def de1_step0(h):
     _de1(h, True)
+
+
+LOOP1R = loop(DE, 'DifferentialEvolutionSolver._Step', 0, 'for candidate in range(self.nPop)', [
+    SHAPES + ' and len(self.trialSolution) == self.nDim',
+    INV_MEMBERS,
+    INV_BEST,
+    'GH.evals == entry(GH.evals) + _i_',
+], modifies=['self.population', 'self.popEnergy', 'self.trialSolution', 'self._bestSolution', 'self._bestEnergy',
+             'GH.evals'], name='DE1-candidate-loop')
+
+
+@contract('C01/DE1._Step/generation-0-branch-re-entered', ['C01'], DE + '::DifferentialEvolutionSolver._Step',
+          loops=dict([LOOP1R]), native=False, small=[dict(a, nsteps=0) for a in SMALL],
+          note='an evolved population with an empty step monitor (SetGenerationMonitor(m, new=True) between iterations): '
+               'the reported best must again be an evaluated point with its own energy.  That the best is then not '
+               'necessarily the best member (it restarts from member 0) is not claimed by C01 and not checked here.')
+def de1_step0_reentered(h):
+    _de1(h, True, reentered=True)
 
 
 # ============================================================================ DifferentialEvolutionSolver2
@@ -330,7 +355,7 @@ def _Lam(f):
     return Builtin('spec-lambda', lambda I_, a, k: f(I_, a[0]))
 
 
-def _de2(h, gen0):
+def _de2(h, gen0, reentered=False):
     sp = _spec_functions(h)
     for k, v in sp.items():
         h.spec(k, v, pure=k in ('E', 'FIX', 'EVALD'))
@@ -347,8 +372,10 @@ def _de2(h, gen0):
     h.set_field(s, '_evalmon', evalmon)
     h.set_field(s, '_map', _map_contract(h, sp, holder))
     env = dict(self=s)
-    if gen0:
+    if gen0 and not reentered:
         h.assume('forall(0, self.nPop, lambda c: isinf(self.popEnergy[c]))', **env)
+    elif reentered:
+        h.assume(INV_MEMBERS, **env)
     else:
         h.assume(INV_MEMBERS, **env)
         h.assume(INV_BEST, **env)
@@ -361,6 +388,9 @@ def _de2(h, gen0):
     env.update(GH=gh, NP=NP, popE0=popE0, pop0=pop0, bestE0=bestE0, nev=nev, trial=trial)
     h.check('C01/member-energies-are-the-objective-at-the-members', INV_MEMBERS, **env)
     h.check('C01/best-energy-is-the-objective-at-an-evaluated-constrained-point', INV_BEST, **env)
+    if reentered:
+        h.cover('reached-end')
+        return
     h.check('C01/best-not-worse-than-any-member', INV_ORDER, **env)
     if not gen0:
         h.check('C04/best-energy-non-increasing', 'self.bestEnergy <= bestE0', **env)
@@ -392,3 +422,18 @@ def de2_step(h):
           loops=dict([LOOP2A, LOOP2B]), native=False, small=[dict(a, nsteps=0) for a in SMALL])
 def de2_step0(h):
     _de2(h, True)
+
+
+LOOP2BR = loop(DE, 'DifferentialEvolutionSolver2._Step', 1, 'for candidate in range(self.nPop)', [
+    SHAPES + ' and len(trialEnergy) == self.nPop',
+    TRIALS,
+    INV_MEMBERS,
+    INV_BEST,
+], modifies=['self.population', 'self.popEnergy', 'self._bestSolution', 'self._bestEnergy'], name='DE2-selection-loop')
+
+
+@contract('C01/DE2._Step/generation-0-branch-re-entered', ['C01'], DE + '::DifferentialEvolutionSolver2._Step',
+          loops=dict([LOOP2A, LOOP2BR]), native=False, small=[dict(a, nsteps=0) for a in SMALL],
+          note='as for DE1: evolved population, step monitor replaced between iterations')
+def de2_step0_reentered(h):
+    _de2(h, True, reentered=True)
